@@ -162,7 +162,8 @@ def plan_for(prop, tier, seed):
                     if withE and (not q or bi == 0):
                         P.add(Entry("bw_ord%d_%d_fi_e" % (bi, pi), "bytewise", "first", p),
                               "E:m=lm,L=%d" % (2 if q else 4))
-            for pi, p in enumerate(perms3(["東京", "東京都", "京都"])):
+            # char-wise orders: Greek letters in the quick tier (1.2 k-entry mapper table), CJK in the thorough one
+            for pi, p in enumerate(perms3(["αβ", "αβγ", "βγ"] if q else ["東京", "東京都", "京都"])):
                 if q and pi % 2:
                     continue
                 P.add(Entry("cw_ord_%d_fi" % pi, "charwise", "first", p), *fams)
